@@ -197,7 +197,8 @@ def random_piece(rng, c):
     for b in range(nb):
         if rng.random() < .35:
             sig = rng.choice([(4, 4), (3, 4), (2, 4), (6, 8), (2, 2), (5, 4), (7, 8), (3, 8), (12, 8), (2, 8), (3, 8), (1, 4),
-                              (9, 8), (5, 8), (11, 8), (7, 4), (3, 2), (2, 1), (15, 8), (4, 2), (13, 8)])
+                              (9, 8), (5, 8), (11, 8), (7, 4), (3, 2), (2, 1), (15, 8), (4, 2), (13, 8),
+                              (6, 16), (12, 16), (4, 16), (10, 16), (14, 16), (8, 32), (16, 32)])
             sigs.append([t, sig[0], sig[1]])
         ln = c["ppqn"] * 4 * sig[0] // sig[1]
         bars.append((t, t + ln))
@@ -584,6 +585,11 @@ def chunked(case):
             ns, _ = P.notes_of_abs(P.raw_abs(s))
             exp += [{"trk": i, "p": n["p"], "s": n["s"], "e": n["e"], "v": observed_bin(tok, n["v"])} for n in ns]
         line["expected"] = exp
+        # the inputs arrive in rotating freshness states: as built, both views materialised (whole piece / chunks)
+        if idx % 3 == 1:
+            [s.refresh() for s in whole]
+        elif idx % 3 == 2:
+            [s.refresh() for part in chunks for s in part]
         single = tok.tokenise(whole, insert_bar_token=bar_tok)
         line["single"] = project_out(tok.detokenise(tok.decode(tok.encode(single))))
         state, toks = dict(), []
